@@ -203,10 +203,7 @@ Definition instantiate_scheme (s : tc) (sc : scheme) : ty * tc :=
       (instantiate vs t, add_bounds s1 (map (instantiate vs) bs))
   end.
 
-Definition elab_binop (o : binop) (a b : expr) (lt rt : ty) (s : tc) : res (ty * tc) :=
-  match lt with
-  | TDateTime => Err EUnsupported
-  | _ =>
+Definition elab_binop_core (o : binop) (a b : expr) (lt rt : ty) (s : tc) : res (ty * tc) :=
   match o with
   | OAdd | OSub | OConv => assert_equal_dtypes s lt rt
   | OMul | ODiv =>
@@ -271,7 +268,13 @@ Definition elab_binop (o : binop) (a b : expr) (lt rt : ty) (s : tc) : res (ty *
       if is_violated r1 then Err EExpectedBool else
       let (s2, r2) := add_c s1 (CEq rt TBool) in
       if is_violated r2 then Err EExpectedBool else Ok (TBool, s2)
-  end
+  end.
+
+(* DateTime operands take a separate path in the code (outside the model) *)
+Definition elab_binop (o : binop) (a b : expr) (lt rt : ty) (s : tc) : res (ty * tc) :=
+  match lt with
+  | TDateTime => Err EUnsupported
+  | _ => elab_binop_core o a b lt rt s
   end.
 
 (* proper_function_call: parameter constraints in order *)
